@@ -380,6 +380,80 @@ def fam_misc(arg):
     return acc.result()
 
 
+# ---------------------------------------------------------------- break / continue in places where no loop of the same function encloses them
+
+ME_OUTER = ('none', 'while', 'for', 'if-in-while', 'for-in-function')
+ME_FUNC = (False, True)                      # is the exit inside a function DEFINED at that place?
+ME_WRAP = ('bare', 'if', 'else', 'elif', 'if-in-if', 'after-own-loop')
+ME_EXIT = ('break', 'continue')
+
+
+def misplaced_cases():
+    return [{'outer': o, 'func': f, 'wrap': w, 'exit': e} for o in ME_OUTER for f in ME_FUNC for w in ME_WRAP for e in ME_EXIT]
+
+
+def build_misplaced(case):
+    """Source text in which a break / continue may have no enclosing loop in its own function. Whether the text is
+    valid is for the parser to say: it must either raise BareScriptParserError or return a well-formed model."""
+    ex = case['exit']
+    wrap = case['wrap']
+    if wrap == 'bare':
+        inner = [ex]
+    elif wrap == 'if':
+        inner = ['if cc():', '    ' + ex, 'endif']
+    elif wrap == 'else':
+        inner = ['if cc():', "    systemLog('t')", 'else:', '    ' + ex, 'endif']
+    elif wrap == 'elif':
+        inner = ['if cc():', "    systemLog('t')", 'elif cc():', '    ' + ex, 'endif']
+    elif wrap == 'if-in-if':
+        inner = ['if cc():', '    if cc():', '        ' + ex, '    endif', 'endif']
+    else:
+        inner = ['for u in arrayNew(1):', "    systemLog('u')", 'endfor', 'if cc():', '    ' + ex, 'endif']
+    if case['func']:
+        inner = ['function gg():'] + ['    ' + ln for ln in inner] + ["    systemLog('g')", 'endfunction']
+    ind = lambda lines: ['    ' + ln for ln in lines]  # noqa: E731
+    outer = case['outer']
+    if outer == 'none':
+        lines = inner
+    elif outer == 'while':
+        lines = ['while cc():'] + ind(inner) + ['endwhile']
+    elif outer == 'for':
+        lines = ['for v in arrayNew(1, 2):'] + ind(inner) + ['endfor']
+    elif outer == 'if-in-while':
+        lines = ['while cc():', '    if cc():'] + ind(ind(inner)) + ['    endif', 'endwhile']
+    else:
+        lines = ['function ff():', '    for v in arrayNew(1, 2):'] + ind(ind(inner)) + ['    endfor', 'endfunction']
+    return '\n'.join(["systemLog('start')"] + lines + ["systemLog('end')"]) + '\n'
+
+
+def check_misplaced(case, acc):
+    bs = load_impl()
+    src = build_misplaced(case)
+    c2 = dict(case, source=src)
+    acc.evals += 1
+    try:
+        model = bs.parse_script(src)
+    except bs.BareScriptParserError:
+        acc.outcome('rejected')
+        return
+    except Exception as exc:  # pylint: disable=broad-exception-caught
+        acc.violation(c2, 'a model or BareScriptParserError', ('raise', type(exc).__name__, str(exc)[:200]), 'parse_script raised another exception')
+        return
+    n = static_check(model, c2, acc)
+    acc.nontrivial += 1
+    acc.outcome(('accepted', n))
+
+
+def fam_misplaced(arg):
+    acc = Acc('misplaced_exits')
+    for case in arg:
+        acc.cases += 1
+        check_misplaced(case, acc)
+    if arg:
+        acc.sample({'case': arg[-1], 'source': build_misplaced(arg[-1])})
+    return acc.result()
+
+
 def families(tier):
     load_impl()
     nb = len(pair_bodies())
@@ -387,6 +461,7 @@ def families(tier):
     nmisc = len(misc_programs())
     be = chains.branch_end_specs()
     return [
+        Family('misplaced_exits', fam_misplaced, split(misplaced_cases(), 4), 'break / continue bare, inside if / else / elif / nested ifs, or after a complete loop of their own - at top level, in a while, a for, an if inside a while, and inside a function DEFINED at each of those places: the parser either rejects the text or returns a model whose every jump stays in its scope', expected=len(misplaced_cases())),
         Family('loop_tails', fam_loop_tail, split(chains.loop_tail_specs(), 16), "the outer loop's own continue / break (guarded, or bare at the end) before and / or after a COMPLETE nested loop of its body: 2 outer loops x 6 inner shapes x 2 exits x 4 placements x 2 scopes; static + dynamic (bound 2)", expected=len(chains.loop_tail_specs())),
         Family('branch_end', fam_branch_end, split(be, 32), 'an if chain (if / if-else / if-elif / if-elif-else) inside a loop (while, for, counter while) where every branch independently ends in nothing / break / continue / return; x 2 scopes x 3 surroundings; static + dynamic (bound 2)', expected=len(be)),
         Family('misc', fam_misc, [list(range(nmisc))], 'hand-written shapes: loops/ifs with empty and comment-only bodies (static + dynamic), include statements at top level, in functions, in loops and in if chains, an async function, user labels (schema validity)', expected=nmisc),
@@ -398,7 +473,7 @@ def families(tier):
     ]
 
 
-_CHECKS = {'loop_tails': check_loop_tail, 'misc': check_misc, 'pairs1': check_pair1, 'chain': check_chain, 'pairs': check_pair, 'branch_end': check_branch_end}
+_CHECKS = {'misplaced_exits': check_misplaced, 'loop_tails': check_loop_tail, 'misc': check_misc, 'pairs1': check_pair1, 'chain': check_chain, 'pairs': check_pair, 'branch_end': check_branch_end}
 
 
 def replay(family, case):
